@@ -7,9 +7,10 @@ AddrsA == [h \in HostsA |-> CASE h = "mix" -> <<"refuse", "hang", "ok">>
                               [] h = "dead" -> <<"refuse", "refuse">>
                               [] h = "slow" -> <<"hang">>]
 ResolveA == [h \in HostsA |-> "ok"]
-HostsB == {"mix", "rerr", "rhang"}
+HostsB == {"mix", "rerr", "rhang", "lit"}
 AddrsB == [h \in HostsB |-> CASE h = "mix" -> <<"refuse", "ok">>
                               [] h = "rerr" -> <<"ok">>
-                              [] h = "rhang" -> <<"ok">>]
-ResolveB == [h \in HostsB |-> CASE h = "mix" -> "ok" [] h = "rerr" -> "error" [] h = "rhang" -> "hang"]
+                              [] h = "rhang" -> <<"ok">>
+                              [] h = "lit" -> <<"hang">>]
+ResolveB == [h \in HostsB |-> CASE h = "mix" -> "ok" [] h = "rerr" -> "error" [] h = "rhang" -> "hang" [] h = "lit" -> "direct"]
 =============================================================================
